@@ -28,7 +28,13 @@
    * C09_type_decode: a complex-type offset is not a multiple of 2^24 (always true for
      typelibs below 16 MiB since offsets are > 0).
    * C09_deprecated_partial excludes GI_INFO_TYPE_UNION: on unions the unchanged code violates the
-     property (`C09_deprecated_counterexample`; PENDING finding `api:union:deprecated`).
+     property (`C09_deprecated_counterexample`; PENDING finding `api:union:deprecated`).  Re-validated
+     against /repo HEAD after the fix: commits (none of them touches gibaseinfo.c).
+   * C09_struct_func_name_partial: for GI_INFO_TYPE_BOXED the stored copy/free string offset is 0
+     (girnode.c never writes one for <glib:boxed>; checked per typelib, `boxed_funcs_unset`).  The
+     accessors' GI_IS_STRUCT_INFO guard rejects boxed infos, so a hand-made typelib with a non-zero
+     offset there is reported as NULL (`C09_struct_func_name_counterexample`); the same guard makes
+     g-ir-generate abort on every boxed entry (PENDING finding `generate:boxed:crash`).
   girwriter.c (typelib → GIR text) is NOT modelled: validated by the harness only.
 -/
 import GIVerif.Lemmas.InfoAccess
@@ -404,6 +410,40 @@ theorem C09_deprecated_counterexample :
   revert this
   decide +kernel
 
+/-! ### copy / free function of records and boxed types -/
+
+/-- the property at full strength: for both kinds of StructBlob infos the accessor reports the stored string -/
+def C09_struct_func_name_full : Prop :=
+  ∀ (c : Ctx) (kind strOff : Nat), kind = K "GI_INFO_TYPE_STRUCT" ∨ kind = K "GI_INFO_TYPE_BOXED" →
+    structFuncName c kind strOff = optStr c.t strOff
+
+/-- g_struct_info_get_copy_function / g_struct_info_get_free_function report what the StructBlob stores
+    (the string, or NULL for offset 0) for GI_INFO_TYPE_STRUCT, and for GI_INFO_TYPE_BOXED as long as
+    the blob stores no function there (what the compiler writes). -/
+theorem C09_struct_func_name_partial (c : Ctx) (kind strOff : Nat)
+    (_hk : kind = K "GI_INFO_TYPE_STRUCT" ∨ kind = K "GI_INFO_TYPE_BOXED")
+    (h : kind = K "GI_INFO_TYPE_STRUCT" ∨ strOff = 0) :
+    structFuncName c kind strOff = optStr c.t strOff := by
+  unfold structFuncName
+  rcases h with h | h
+  · simp [h]
+  · subst h
+    by_cases hk : (kind == K "GI_INFO_TYPE_STRUCT") = true
+    · simp [hk]
+    · simp [hk, optStr]
+
+/-- The extra hypothesis cannot be dropped: on the 6 bytes `00 00 00 00 'a' 00` a BOXED info whose
+    copy_func offset is 4 stores the string "a", the accessor says NULL (GI_IS_STRUCT_INFO fails). -/
+theorem C09_struct_func_name_counterexample :
+    ¬ C09_struct_func_name_full
+    ∧ optStr (⟨#[0, 0, 0, 0, 97, 0]⟩ : Bytes) 4 = "a"
+    ∧ structFuncName (mkCtx ⟨#[0, 0, 0, 0, 97, 0]⟩) (K "GI_INFO_TYPE_BOXED") 4 = "(null)" := by
+  refine ⟨?_, by decide +kernel, by decide +kernel⟩
+  intro h
+  have := h (mkCtx ⟨#[0, 0, 0, 0, 97, 0]⟩) (K "GI_INFO_TYPE_BOXED") 4 (Or.inr rfl)
+  revert this
+  decide +kernel
+
 /-! ### non-vacuity: concrete instances of the hypotheses and conclusions -/
 
 -- a field run with an embedded callback in the middle, as the bytes would say it
@@ -429,6 +469,10 @@ example : findFirst (fun i => [8, 40, 40, 40, 72].getD i 0) 40 (some 3) = some 1
 example : iterAttributes (fun i => [8, 40, 40, 40, 72].getD i 0) 5 40 (some 2) = [1, 2, 3] := by decide
 example : iterAttributes (fun i => [8, 40, 40, 40, 72].getD i 0) 5 24 none = [] := by decide
 example : BsearchOk (fun i => [8, 40, 40, 40, 72].getD i 0) 5 40 (some 2) := ⟨by omega, by decide⟩
+-- a record with a copy function "a" at string offset 4, and a boxed type storing none
+example : structFuncName (mkCtx ⟨#[0, 0, 0, 0, 97, 0]⟩) (K "GI_INFO_TYPE_STRUCT") 4 = "a" := by decide +kernel
+example : structFuncName (mkCtx ⟨#[0, 0, 0, 0, 97, 0]⟩) (K "GI_INFO_TYPE_BOXED") 0 = optStr ⟨#[0, 0, 0, 0, 97, 0]⟩ 0 := by
+  decide +kernel
 -- utf8 (tag 13) pointer: simple; an offset such as 0x1a4 is complex
 example : typeIsSimple (encodeSimple 13 1) = true ∧ simpleTag (encodeSimple 13 1) = 13 := by decide +kernel
 example : typeIsSimple 420 = false ∧ typeInfoOffset 88 420 = 420 := by decide +kernel
